@@ -263,3 +263,28 @@ Lemma dedupF_eq l : dedupF l = dedup l.
 Proof.
   apply dedupF_from_eq. intros x. simpl. split; [intros H; now apply PositiveSet.empty_spec in H|intros []].
 Qed.
+
+(* without `strict` the statements fail: an importer that goes on after a failed Add (observed: go-unixfs'
+   balanced layout, first leaf of a multi-chunk file) ends with the root pinned and a block never delivered *)
+Definition swallow_stream : list block := [mkbs 1 70 []; mkb 2 30 []; mkb 3 100 [1; 2]].
+Definition swallow_env_alloc : env :=
+  mkenv 1 2 100000 5984 false (fun k => if k =? 0 then None else Some [1; 2]) (fun _ _ => POk) (fun _ => true).
+Definition swallow_env_put : env :=
+  mkenv 1 2 100000 5984 false (fun _ => Some [1; 2]) (fun j _ => if j =? 0 then PIpfs else POk) (fun _ => true).
+
+Lemma importer_swallow_refuted_l :
+  sizes_by_cid swallow_stream /\ link_closed swallow_stream /\ reach swallow_stream 3 1 /\
+  (exists t, single_run swallow_env_alloc swallow_stream 3 = (ROk (CData 3), t) /\ ~ In 1 (data_puts t) /\
+             exists q, In q (ok_pins t) /\ pcid q = CData 3) /\
+  (exists t, shard_run swallow_env_put swallow_stream 3 = (ROk (CData 3), t) /\
+             Exists (fun x => fst (fst x) = CData 1 /\ snd x = None) (puts t) /\
+             flat_map (fun p => flatten_data (pcid p)) (filter is_shard_pin (ok_pins t)) = [1; 2; 3]).
+Proof.
+  split; [intros b b' [<-|[<-|[<-|[]]]] [<-|[<-|[<-|[]]]]; simpl; intros; congruence|].
+  split; [intros b l [<-|[<-|[<-|[]]]]; simpl; intuition (subst; auto)|].
+  split; [eapply (reach_link _ _ 3 (mkb 3 100 [1; 2]) 1); [apply reach_root|simpl; tauto|reflexivity|simpl; tauto]|].
+  split.
+  - eexists. split; [vm_compute; reflexivity|]. split; [simpl; intuition discriminate|].
+    eexists. split; [left; reflexivity|reflexivity].
+  - eexists. split; [vm_compute; reflexivity|]. split; [left; split; reflexivity|reflexivity].
+Qed.
